@@ -132,6 +132,30 @@ def _row_items(em, rng, col, opts, style):
   return col
 
 
+def _readdress(em, rng, row, opts, style):
+  """The same row addressed twice in one caption: first text at an indent plus a tab offset, then a preamble address
+  code at the bare indent (or at a neighbouring one) whose text runs into / over the cells written before."""
+  d = 16 + 2 * rng.randrange(0, 7) + rng.randrange(2)
+  col = (d - 16) // 2 * 4 + 1
+  k = rng.randint(1, 3)
+  em.code(U.w_pac(row, d))
+  em.code(U.w_ctl("TO%d" % k), allow_ch2=False)
+  for _ in range(rng.randint(1, 3)):
+    em.text(rng.choice(LETTERS), rng.choice(LETTERS))
+  d2 = d if rng.random() < 0.7 else max(16, min(31, d + rng.choice([-2, 2])))
+  em.code(U.w_pac(row, d2))
+  if rng.random() < 0.3:
+    em.code(U.w_ctl("TO%d" % rng.randint(1, 3)), allow_ch2=False)
+  n = rng.randint(1, 3)
+  for j in range(n):
+    if j == n - 1 and rng.random() < 0.4:
+      em.text(rng.choice(LETTERS), 0)
+    else:
+      em.text(rng.choice(LETTERS), rng.choice(LETTERS))
+  em.features.add("row_readdressed")
+  return col
+
+
 def _pac(em, rng, row, opts):
   if "pacattr" in opts and rng.random() < 0.35:
     desc = rng.randrange(16)
@@ -198,6 +222,9 @@ def gen_stream(rng, style=None, plain=False, doubling=None):
       if rng.random() < 0.7:
         rows.sort()
       for row in rows:
+        if (not plain) and rng.random() < 0.12:
+          _readdress(em, rng, row, opts, st)
+          continue
         col = _pac(em, rng, row, opts)
         _row_items(em, rng, col, opts, st)
       if "edm_before_eoc" in opts and rng.random() < 0.5:
@@ -227,6 +254,9 @@ def gen_stream(rng, style=None, plain=False, doubling=None):
       em.code(U.w_ctl("RDC"))
       rows = rng.sample(range(1, 16), rng.randint(1, 3))
       for row in rows:
+        if (not plain) and rng.random() < 0.12:
+          _readdress(em, rng, row, opts, st)
+          continue
         col = _pac(em, rng, row, opts)
         _row_items(em, rng, col, opts, st)
     new_line(em, 0 if cap == 0 else rng.choice([0, 0, 1, 5, rng.randint(2, 90)]))
